@@ -216,4 +216,60 @@ theorem reachable_runChoices {v : Nat} {ths : List (List Op)} {s s' : State} (l 
       exact ih (Reachable.step h ho) hr
     · simp at hr
 
+/-- the operation index in the pc points at an operation of the matching kind -/
+def opsOkP (ops : List Op) : Pc → Prop
+  | .lock k => ∃ op, ops[k]? = some op
+  | .wait k | .waiting k => ∃ d sl, ops[k]? = some (.wait d sl)
+  | _ => True
+
+def OpsOk (s : State) : Prop := ∀ t, opsOkP (opsT s.thr t) (pcT s.thr t)
+
+theorem opsOk_step {s : State} {t c : Nat} {o} (h : step s t c = some o) (hi : OpsOk s) : OpsOk o.st := by
+  sem_step_cases h
+  all_goals (
+    have hlt := lt_of_getElem? ‹s.thr[t]? = some _›
+    have hpc := pcT_of_getElem? ‹s.thr[t]? = some _›
+    have hops := opsT_of_getElem? ‹s.thr[t]? = some _›
+    intro u
+    have hu := hi u
+    have ht := hi t
+    simp only [pcT_setPc, opsT_setPc]
+    by_cases hut : t = u
+    · subst hut; simp_all [opsOkP]
+      all_goals (try (split <;> simp_all [opsOkP]))
+      all_goals (try (exact List.getElem?_eq_getElem (by omega) ▸ ⟨_, rfl⟩))
+      all_goals (
+        have hne : ¬ (opsT s.thr t).isEmpty = true := by rw [hops]; simpa using ‹¬ _›
+        rw [← hops]
+        cases hq : opsT s.thr t with
+        | nil => simp [hq] at hne
+        | cons a l => exact ⟨a, rfl⟩)
+    · simp_all)
+
+theorem opsOk_init (v : Nat) (ths : List (List Op)) : OpsOk (Sem.init v ths) := by
+  intro t
+  have := pcT_init_cons ths t
+  simp only [Sem.init]
+  rcases this with h | h <;> rw [h] <;> simp [opsOkP]
+
+theorem reachable_opsOk {v : Nat} {ths : List (List Op)} {s : State} (h : Reachable v ths s) : OpsOk s := by
+  induction h with
+  | init => exact opsOk_init v ths
+  | step _ hs ih => exact opsOk_step hs ih
+
+theorem enabled_step {v : Nat} {ths : List (List Op)} {s : State} (h : Reachable v ths s) {t : Nat} (c : Nat)
+    (he : enabled s t = true) : ∃ o, step s t c = some o := by
+  have hok := reachable_opsOk h t
+  unfold enabled pcOf at he
+  unfold pcT opsT at hok
+  unfold step
+  cases hth : s.thr[t]? with
+  | none => simp [hth] at he
+  | some th =>
+    simp only [hth, Option.map_some, Option.getD_some] at he hok ⊢
+    cases hp : th.pc <;> simp [hp, out, pcOf, opsOkP] at he hok ⊢
+    all_goals (try (simp_all; done))
+    all_goals (try (repeat' split) <;> simp_all <;> done)
+
+
 end TlxVerif.C11.Sem
